@@ -167,6 +167,41 @@ def run(rep, tier, seed, replay=None):
             nviol += 1
         if nviol > 6:
             break
+    # ---------------- (4) table operations inside a history: a local Table B that redefines master elements is loaded into
+    # the tables object AFTER it has been used (the elements were looked up before); every later operation must give what it
+    # gives on a fresh object that got the same loads
+    if not replay and nviol == 0:
+        import c12tables as ct, os
+        redefs = [(4001, "YEAR", 0, 0, 14), (4002, "MONTH", 0, 0, 6), (12001, "TEMPERATURE", 2, 0, 16), (5001, "LATITUDE", 4, -9000000, 25)]
+        ltb = os.path.join(vlib.scratch(), "c15_local_b.txt")
+        open(ltb, "w").write("* local\n" + "".join(ct.fmt_b_line(dict(desc=d, name=nm, unit="NUMERIC", scale=sc, ref=rf, width=w)) + "\n" for d, nm, sc, rf, w in redefs))
+        after = ["E 4 0 3 4001 4002 12001 1 r7e4 r3 r1111 |",
+                 "E 4 0 5 1001 101000 31001 301011 12001 1 r5 r2 r7e4 r3 r9 r7e5 r4 ra r1111 |",
+                 "E 4 1 4 103000 31001 301011 5001 12001 2 r1 r7e4 r3 r9 r123456 r1111 | r1 r7e5 r3 r9 r123457 r1110 |"]
+        fresh = ctx.run_c(["TABLES", "LOADLB " + ltb] + after)[2:]
+        fmsgs = [codec.parse_c_listing(o)[0].get("msg") for o in fresh]
+        after2 = after + ["D " + m for m in fmsgs if m]
+        fresh2 = [strip(x) for x in ctx.run_c(["TABLES", "LOADLB " + ltb] + after2)[2:]]
+        ctx.run_c(["TABLES"])
+        warm_pool = ["E 4 0 4 4001 4002 4003 12001 1 r7e4 r3 r9 r1111 |", "E 4 0 2 301011 5001 1 r7e4 r3 r9 r123 |"] + work[:30]
+        for h in range(4 if tier == "quick" else 30):
+            warm = [rng.choice(warm_pool) for _ in range(rng.randint(1, 8))] + warm_pool[:2]
+            rng.shuffle(warm)
+            outs = ctx.run_c(["TABLES"] + warm + ["LOADLB " + ltb] + after2)
+            got = [strip(x) for x in outs[2 + len(warm):]]
+            for line, a, b in zip(after2, fresh2, got):
+                rep.count(("tables_in_history", h, line[:200])); feat["history_ops_after_table_load"] += 1
+                if a != b:
+                    rep.violation("C15: after loading a local Table B into a tables object that was used before, an operation gives a result different from a fresh tables object with the same loads: %s... vs %s...  [op: %s]" % (b[:100], a[:100], line[:160]),
+                                  {"kind": "history", "lines": ["TABLES"] + warm + ["LOADLB " + ltb] + [line], "local_table_b": open(ltb).read(), "fresh": a[:3000], "in_history": b[:3000]})
+                    nviol += 1
+                    break
+            if len(got) < len(after2):
+                rep.violation("C15: the library crashed after a table load inside a history [%s]" % ctx.sanitizer_summary(), {"kind": "history", "lines": ["TABLES"] + warm + ["LOADLB " + ltb] + after2, "local_table_b": open(ltb).read()})
+                nviol += 1
+            if nviol:
+                break
+        ctx.run_c(["TABLES"])
     if not proved and not rep.violations:
         rep.violation("C15: proof obligations no longer check and no failing input was found", getattr(rep, "proof_broken", {}), no_input=True)
     rep.cov["traces_validated_against_impl"] = rep.cov["evaluations"]
